@@ -274,7 +274,105 @@ pub fn probe_attempt(w: &mut World, actor: &str, psbt: &Psbt) {
         if !w.violations.is_empty() {
             return;
         }
+        what_if(w, actor, psbt, i);
+        if !w.violations.is_empty() {
+            return;
+        }
     }
+}
+
+/// A second spender of the same coin: an alternative transaction whose nLockTime / nSequence claim
+/// some of the descriptor's own lock values (units of the two fields chosen independently), signed
+/// by a chosen subset of the keys (god view). Every satisfier monitor then runs in that world too,
+/// so lock combinations do not depend on what the coordinator's planner happened to ask for.
+fn what_if(w: &mut World, actor: &str, psbt: &Psbt, i: usize) {
+    if w.mon.corruption {
+        return;
+    }
+    let (afters, olders) = crate::wallet::lock_values(&w.env.inputs[i].spec.text);
+    if afters.is_empty() && olders.is_empty() {
+        return;
+    }
+    let key = format!("whatif:{}:{}", w.stats.attempts, i);
+    if w.dec.choose(&key, 3) != 1 {
+        return;
+    }
+    let env = w.env.clone();
+    let pick = |w: &mut World, tag: &str, vals: &[u32], time: &dyn Fn(u32) -> bool| -> Option<u32> {
+        // largest value of the chosen unit (claims every smaller one too), or none
+        let unit_time = w.dec.choose(&format!("{}:unit{}", key, tag), 2) == 1;
+        let v: Vec<u32> = vals.iter().copied().filter(|v| time(*v) == unit_time).collect();
+        match w.dec.choose(&format!("{}:claim{}", key, tag), 4) {
+            0 => None,
+            1 => v.first().copied(),
+            _ => v.last().copied(),
+        }
+    };
+    let lt = pick(w, "abs", &afters, &|v| v >= 500_000_000);
+    let sq = pick(w, "rel", &olders, &|v| v & (1 << 22) != 0);
+    let mut p2 = psbt.clone();
+    p2.unsigned_tx.lock_time = bitcoin::absolute::LockTime::from_consensus(lt.unwrap_or(0));
+    p2.unsigned_tx.input[i].sequence = bitcoin::Sequence(match sq {
+        Some(v) => v,
+        None => 0xFFFF_FFFE,
+    });
+    p2.unsigned_tx.version = bitcoin::transaction::Version(2);
+    // who signs: everybody, or a subset
+    let all_keys = env.inputs[i].key_ids.clone();
+    let mask = match w.dec.choose(&format!("{}:keys", key), 3) {
+        0 => u64::MAX,
+        _ => mix(&[env.run_seed, fnv(key.as_bytes()), 0x6b]),
+    };
+    let keys: Vec<usize> = all_keys.iter().copied().enumerate().filter(|(n, _)| mask >> (n % 64) & 1 == 1).map(|(_, k)| k).collect();
+    let hmask = match w.dec.choose(&format!("{}:hashes", key), 3) {
+        0 | 1 => u64::MAX,
+        _ => mix(&[env.run_seed, fnv(key.as_bytes()), 0x68]),
+    };
+    let hashes: Vec<usize> = env.uni.hashes.iter().filter(|h| env.inputs[i].spec.text.contains(&h.hex)).map(|h| h.id).enumerate().filter(|(n, _)| hmask >> (n % 64) & 1 == 1).map(|(_, h)| h).collect();
+    let sat = crate::wallet::god_sat(&env, &p2.unsigned_tx, i, &keys, &hashes, mix(&[env.run_seed, fnv(key.as_bytes()), 0x61]));
+    // write that world into the PSBT input, replacing what the real signers had put there
+    let inp = &mut p2.inputs[i];
+    inp.partial_sigs.clear();
+    inp.tap_key_sig = None;
+    inp.tap_script_sigs.clear();
+    inp.sha256_preimages.clear();
+    inp.hash256_preimages.clear();
+    inp.ripemd160_preimages.clear();
+    inp.hash160_preimages.clear();
+    inp.sighash_type = None;
+    for (k, sig) in &sat.ecdsa {
+        inp.partial_sigs.insert(env.uni.keys[*k].public, *sig);
+    }
+    for (k, sig) in &sat.tap_key {
+        inp.tap_internal_key = Some(env.uni.keys[*k].xonly);
+        inp.tap_key_sig = Some(*sig);
+    }
+    for ((k, lh), sig) in &sat.tap_script {
+        inp.tap_script_sigs.insert((env.uni.keys[*k].xonly, *lh), *sig);
+    }
+    for h in &sat.preimages {
+        let hi = &env.uni.hashes[*h];
+        let pre = hi.preimage.to_vec();
+        match hi.kind {
+            crate::keys::HashKind::Sha256 => {
+                inp.sha256_preimages.insert(sha256::Hash::from_slice(&hi.digest).unwrap(), pre);
+            }
+            crate::keys::HashKind::Hash256 => {
+                inp.hash256_preimages.insert(bitcoin::hashes::sha256d::Hash::from_slice(&hi.digest).unwrap(), pre);
+            }
+            crate::keys::HashKind::Ripemd160 => {
+                inp.ripemd160_preimages.insert(bitcoin::hashes::ripemd160::Hash::from_slice(&hi.digest).unwrap(), pre);
+            }
+            crate::keys::HashKind::Hash160 => {
+                inp.hash160_preimages.insert(hash160::Hash::from_slice(&hi.digest).unwrap(), pre);
+            }
+        }
+    }
+    w.stats.probe("what_if_world");
+    if lt.is_some() && sq.is_some() {
+        w.stats.probe("what_if_world_both_locks");
+    }
+    probe_input(w, actor, &p2, i);
 }
 
 fn probe_input(w: &mut World, actor: &str, psbt: &Psbt, i: usize) {
@@ -302,6 +400,12 @@ fn probe_input(w: &mut World, actor: &str, psbt: &Psbt, i: usize) {
                 w.stats.probe(&format!("sat_ok:{:?}", trace.kind));
                 if !trace.cltv.is_empty() || !trace.csv.is_empty() {
                     w.stats.probe("timelock_arm_taken");
+                }
+                if let (Some(a), Some(r)) = (trace.cltv.first(), trace.csv.first()) {
+                    w.stats.probe("abs_and_rel_lock_on_one_path");
+                    if (*a >= 500_000_000) != (*r & (1 << 22) != 0) {
+                        w.stats.probe("abs_and_rel_lock_units_differ");
+                    }
                 }
                 if trace.hash_checks.iter().any(|h| h.preimage.len() == 32 && h.preimage.iter().all(|b| *b == 0)) {
                     w.stats.probe("hash_dissatisfaction_used");
@@ -508,6 +612,9 @@ pub fn finalize_with_monitors(w: &mut World, actor: &str, psbt: &mut Psbt, v: u6
                 Some(Ok(())) => {}
                 Some(Err(list)) => {
                     any_err = true;
+                    if std::env::var("VERIF_DEBUG").is_ok() {
+                        eprintln!("debug: {} at {} -> {:?}", how, actor, list);
+                    }
                     for e in &list {
                         match err_index(e) {
                             Some(i) => {
@@ -598,8 +705,17 @@ pub fn finalize_with_monitors(w: &mut World, actor: &str, psbt: &mut Psbt, v: u6
                     raise(w, "C14", "I3-utxo", format!("{} dropped or changed a UTXO field of input {}", how, i), actor);
                 }
             } else if matches!(v % 6, 0 | 1 | 3) && !w.coord.crash_requested {
-                // whole-PSBT variants: an input that is neither reported failed nor final
-                raise(w, "C14", "I3", format!("{} neither finalised nor reported input {}", how, i), actor);
+                // whole-PSBT variants: an input that is neither final nor named in the error list.
+                // The property asks that a failed input is left untouched and that success means
+                // final; it does not ask that the error list names the input (finalising input 0
+                // reports InputError(MissingUtxo, 1) when it is input 1's UTXO that is missing).
+                if !any_err {
+                    raise(w, "C14", "I3", format!("{} returned Ok but input {} is not final", how, i), actor);
+                } else if psbt.inputs[i] != before.inputs[i] {
+                    raise(w, "C14", "I3", format!("{} did not finalise input {} but modified it", how, i), actor);
+                } else {
+                    w.stats.probe("failed_input_not_named_in_error_list");
+                }
             }
             if !w.violations.is_empty() {
                 return false;
